@@ -103,9 +103,6 @@ const std::string k_soups_built = "soups_built";
 const std::string k_soups_where_points_were_merged = "soups_where_points_were_merged";
 const std::string k_soups_where_position_values_were_merged = "soups_where_position_values_were_merged";
 const std::string k_soups_with_duplicates_left = "soups_with_duplicates_left";
-const std::string k_soups_with_equal_nan_corners_merged = "soups_with_equal_nan_corners_merged";
-const std::string k_soups_with_plus_and_minus_zero_kept_apart = "soups_with_plus_and_minus_zero_kept_apart";
-const std::string k_soups_with_two_nan_payloads_kept_apart = "soups_with_two_nan_payloads_kept_apart";
 const std::string k_strip_cases_with_multi_face_strip_degenerate = "strip_cases_with_multi_face_strip_degenerate";
 const std::string k_strip_cases_with_multi_face_strip_restart = "strip_cases_with_multi_face_strip_restart";
 const std::string k_strip_cases_with_separator_degenerate = "strip_cases_with_separator_degenerate";
@@ -116,6 +113,13 @@ const std::string k_strip_runs_degenerate = "strip_runs_degenerate";
 const std::string k_strip_runs_restart = "strip_runs_restart";
 const std::string k_strips_emitted_degenerate = "strips_emitted_degenerate";
 const std::string k_strips_emitted_restart = "strips_emitted_restart";
+const std::string k_soups_with_plus_and_minus_zero = "soups_with_plus_and_minus_zero";
+const std::string k_soups_with_two_nan_payloads = "soups_with_two_nan_payloads";
+const std::string k_soups_with_repeated_nan_corner = "soups_with_repeated_nan_corner";
+const std::string k_soups_with_position_degenerate_face = "soups_with_position_degenerate_face";
+const std::string k_soups_with_duplicate_face_up_to_rotation = "soups_with_duplicate_face_up_to_rotation";
+const std::string k_soups_with_oppositely_shared_edge = "soups_with_oppositely_shared_edge";
+const std::string k_clouds_with_repeated_point = "clouds_with_repeated_point";
 
 const int kMaxAtts = 5, kMaxPts = 9, kMaxFaces = 3;
 
@@ -704,6 +708,31 @@ void check_soup(const Soup &s, mc::Ctx &ctx) {
   Tris expect;
   for (int f = 0; f < s.F; ++f) expect.add(canon3(tup[3 * f], tup[3 * f + 1], tup[3 * f + 2]));
   expect.sort();
+  // input classes (vacuity guards; counted before any oracle can bail out)
+  {
+    int cnt[5] = {0, 0, 0, 0, 0};
+    for (int c = 0; c < nc; ++c) cnt[s.pos[c]]++;
+    if (cnt[0] && cnt[1]) ctx.count(k_soups_with_plus_and_minus_zero);
+    if (cnt[3] && cnt[4]) ctx.count(k_soups_with_two_nan_payloads);
+    if (cnt[3] > 1 || cnt[4] > 1) ctx.count(k_soups_with_repeated_nan_corner);
+    bool posdeg = false, dup = false, shared_edge = false;
+    for (int f = 0; f < s.F; ++f) {
+      const int *p = s.pos + 3 * f;
+      posdeg |= p[0] == p[1] || p[1] == p[2] || p[0] == p[2];
+      const int *t = tup + 3 * f;
+      const bool fd = t[0] != t[1] && t[1] != t[2] && t[0] != t[2];
+      for (int g = 0; g < f; ++g) {
+        const int *u = tup + 3 * g;
+        dup |= fd && canon3(t[0], t[1], t[2]) == canon3(u[0], u[1], u[2]);
+        for (int i = 0; i < 3 && fd; ++i)
+          for (int j = 0; j < 3; ++j)
+            shared_edge |= t[i] == u[(j + 1) % 3] && t[(i + 1) % 3] == u[j] && u[0] != u[1] && u[1] != u[2] && u[0] != u[2];
+      }
+    }
+    if (posdeg) ctx.count(k_soups_with_position_degenerate_face);
+    if (dup) ctx.count(k_soups_with_duplicate_face_up_to_rotation);
+    if (shared_edge) ctx.count(k_soups_with_oppositely_shared_edge);
+  }
 
   // --- builder
   TriangleSoupMeshBuilder b;
@@ -769,17 +798,6 @@ void check_soup(const Soup &s, mc::Ctx &ctx) {
   ctx.state(m.structure_hash());
   if ((int)m.np < nc) ctx.count(k_soups_where_points_were_merged);
   if ((int)m.size[0] < nc) ctx.count(k_soups_where_position_values_were_merged);
-  {
-    bool used[5] = {false, false, false, false, false};
-    int cnt[5] = {0, 0, 0, 0, 0};
-    for (int c = 0; c < nc; ++c) {
-      used[s.pos[c]] = true;
-      cnt[s.pos[c]]++;
-    }
-    if (used[0] && used[1]) ctx.count(k_soups_with_plus_and_minus_zero_kept_apart);
-    if (used[3] && used[4]) ctx.count(k_soups_with_two_nan_payloads_kept_apart);
-    if (cnt[3] > 1 || cnt[4] > 1) ctx.count(k_soups_with_equal_nan_corners_merged);
-  }
 
   // --- dedup idempotence on the builder's result
   {
@@ -997,6 +1015,7 @@ void check_cloud(const Cloud &c, mc::Ctx &ctx) {
   expect.sort();
   Pts expect_set = expect;
   expect_set.unique();
+  if (expect_set.n < expect.n) ctx.count(k_clouds_with_repeated_point);
 
   PointCloudBuilder b;
   b.Start(c.N);
@@ -1181,24 +1200,23 @@ int main(int argc, char **argv) {
     add_soup_space(R, std::string("soup_F2_corner_") + tn[t] + "_pos3", {2, A3, {{t, false}}}, true, false);
   // five attributes at once, 3-letter position alphabet
   add_soup_space(R, "soup_F2_5atts_face_pos3", {2, A3, {{0, true}, {1, true}, {2, true}, {3, true}}}, true, true);
-  add_soup_space(R, "soup_F1_5atts_corner_pos3", {1, A3, {{0, false}, {1, false}, {2, false}, {3, false}}}, true, true);
+  add_soup_space(R, "soup_F1_5atts_corner_pos3", {1, A3, {{0, false}, {1, false}, {2, false}, {3, false}}}, false, true);
   // F = 3 (thorough)
   add_soup_space(R, "soup_F3_pos", {3, A5, {}}, false, true);
   add_soup_space(R, "soup_F3_face_u8x4_pos4", {3, A4, {{1, true}}}, false, true);
   add_soup_space(R, "soup_F3_corner_f32x3_pos3_face0nondeg", {3, A3, {{0, false}}, true}, false, true);
   for (int N = 0; N <= 4; ++N) add_cloud_space(R, N);
 
-  R.require("soups_where_points_were_merged", 1);
-  R.require("soups_with_plus_and_minus_zero_kept_apart", 1);
-  R.require("soups_with_two_nan_payloads_kept_apart", 1);
-  R.require("soups_with_equal_nan_corners_merged", 1);
-  R.require("cleanup_faces_removed_degenerate", 1);
-  R.require("cleanup_faces_removed_duplicate", 1);
-  R.require("cleanup_points_removed_unused", 1);
-  R.require("cleanup_values_removed_unused", 1);
-  R.require("strip_cases_with_separator_restart", 1);
-  R.require("strip_cases_with_separator_degenerate", 1);
-  R.require("strip_cases_with_multi_face_strip_restart", 1);
-  R.require("clouds_where_points_were_merged", 1);
+  // vacuity guards: input classes, counted before the oracles run (so that a
+  // defect that makes every case of a class fail is reported as a violation,
+  // not as an empty class); the outcome counters (faces removed per reason,
+  // strips with separators, ...) are in the evidence
+  R.require("soups_with_plus_and_minus_zero", 1);
+  R.require("soups_with_two_nan_payloads", 1);
+  R.require("soups_with_repeated_nan_corner", 1);
+  R.require("soups_with_position_degenerate_face", 1);
+  R.require("soups_with_duplicate_face_up_to_rotation", 1);
+  R.require("soups_with_oppositely_shared_edge", 1);
+  R.require("clouds_with_repeated_point", 1);
   return R.main();
 }
